@@ -5,5 +5,10 @@ from props.fam_l2 import l2_module, l2_dump_module
 
 def build(tier, seed):
     mods = [l1_loader_module("C02", tier), l2_module("C02", tier), l2_dump_module("C02", tier)]
+    from props.C15 import build as build_c15
+    for m15 in build_c15(tier, seed).modules:
+        if m15.key == "c15_literal":
+            m15.obs = [o for o in m15.obs if o.name.startswith("lit_loader_")]
+            mods.append(m15)
     return Plan("C02", mods, assumptions=["CrossHair models of builtins (floats as reals: numeric boundary regions are owned by the E2 kernels)"],
                 bounds={}, outside=["strings longer than the bound"])
